@@ -954,4 +954,16 @@ theorem toyDec_toyEnc (e : Entry) : toyDec (toyEnc e) = some e := by
       simp only [toyEnc, List.cons_append, List.append_assoc, toyDec, decB_encB]
   | _ => simp [toyEnc, toyDec]
 
+/-- boolean form of "recovery succeeds and `get k` answers `v`" (for concrete witnesses) -/
+def recoverGetIs (x : Except RecErr Store) (k : Bytes) (v : Option Val) : Bool :=
+  match x with
+  | .ok r => decide (get r k = v)
+  | .error _ => false
+
+theorem exists_ok_of_get (x : Except RecErr Store) (k : Bytes) (v : Option Val)
+    (h : recoverGetIs x k v = true) : ∃ r, x = .ok r ∧ get r k = v := by
+  cases x with
+  | error e => simp [recoverGetIs] at h
+  | ok r => exact ⟨r, rfl, by simpa [recoverGetIs] using h⟩
+
 end Neumann.Durable
